@@ -26,6 +26,14 @@ impl SignatureConverter<'_> {
             &mut entrait_sig.sig,
         );
 
+        // An `async fn` may leave lifetimes anonymous in an argument-position `impl Trait`
+        // (`words: impl Iterator<Item = &str>`); the `fn` that its trait method becomes may not.
+        if entrait_sig.sig.asyncness.is_some() {
+            // (the dependency is an `impl Trait` of its own kind: its bounds go to the impl)
+            let skip = usize::from(!matches!(self.deps, FnDeps::NoDeps { .. }));
+            name_anonymous_impl_trait_lifetimes(&mut entrait_sig.sig, skip);
+        }
+
         // a trait method cannot be `const`, the fn stays what it is
         entrait_sig.sig.constness = None;
         // (the method is the macro's, whatever macro the fn came out of: see the receiver below)
@@ -346,5 +354,72 @@ fn tidy_generics(generics: &mut syn::Generics) {
     if generics.params.is_empty() {
         generics.lt_token = None;
         generics.gt_token = None;
+    }
+}
+
+/// Every anonymous lifetime (`&T`, `'_`) inside an `impl Trait` of an argument becomes a lifetime parameter of its own
+fn name_anonymous_impl_trait_lifetimes(sig: &mut syn::Signature, skip: usize) {
+    use syn::visit_mut::VisitMut;
+
+    struct Namer {
+        in_impl_trait: bool,
+        named: Vec<syn::Lifetime>,
+    }
+
+    impl Namer {
+        fn fresh(&mut self) -> syn::Lifetime {
+            let lifetime = syn::Lifetime::new(
+                &format!("'__entrait_anon{}", self.named.len()),
+                Span::call_site(),
+            );
+            self.named.push(lifetime.clone());
+            lifetime
+        }
+    }
+
+    impl VisitMut for Namer {
+        fn visit_type_impl_trait_mut(&mut self, impl_trait: &mut syn::TypeImplTrait) {
+            let outer = std::mem::replace(&mut self.in_impl_trait, true);
+            syn::visit_mut::visit_type_impl_trait_mut(self, impl_trait);
+            self.in_impl_trait = outer;
+        }
+
+        fn visit_type_reference_mut(&mut self, reference: &mut syn::TypeReference) {
+            if self.in_impl_trait && reference.lifetime.is_none() {
+                reference.lifetime = Some(self.fresh());
+            }
+            syn::visit_mut::visit_type_reference_mut(self, reference);
+        }
+
+        fn visit_lifetime_mut(&mut self, lifetime: &mut syn::Lifetime) {
+            if self.in_impl_trait && lifetime.ident == "_" {
+                *lifetime = self.fresh();
+            }
+        }
+
+        // `fn(&T) -> &U` and `Fn(&T) -> &U` have an elision scope of their own
+        fn visit_type_bare_fn_mut(&mut self, _: &mut syn::TypeBareFn) {}
+        fn visit_parenthesized_generic_arguments_mut(
+            &mut self,
+            _: &mut syn::ParenthesizedGenericArguments,
+        ) {
+        }
+    }
+
+    let mut namer = Namer {
+        in_impl_trait: false,
+        named: vec![],
+    };
+    for input in sig.inputs.iter_mut().skip(skip) {
+        if let syn::FnArg::Typed(pat_type) = input {
+            namer.visit_type_mut(pat_type.ty.as_mut());
+        }
+    }
+    let at = sig.generics.lifetimes().count();
+    for (index, lifetime) in namer.named.into_iter().enumerate() {
+        sig.generics.params.insert(
+            at + index,
+            syn::GenericParam::Lifetime(syn::LifetimeParam::new(lifetime)),
+        );
     }
 }
